@@ -14,6 +14,15 @@ Theorem C04_decode_git : forall b es, decode 20 b = inr es -> git_ls_tree 20 b =
 Proof. exact decode_is_git. Qed.
 Print Assumptions C04_decode_git.
 
+(* ... and conversely: whenever git lists a tree whose mode fields have at most
+   7 digits (boolean guard on git's own parse), go-git decodes it to the same
+   entries.  Together: on such trees the two readers are the same partial function. *)
+Theorem C04_git_decode : forall b es,
+  match git_parse 20 b with inr rs => short_modes rs | inl _ => true end = true ->
+  git_ls_tree 20 b = inr es -> decode 20 b = inr es.
+Proof. exact git_is_decode. Qed.
+Print Assumptions C04_git_decode.
+
 (* mode canonicalisation is git's canon_mode, for every 32-bit (indeed every) mode *)
 Theorem C04_canon_is_git : forall m, treeobj_canonicalTreeMode m = canon_mode m.
 Proof. exact canon_same. Qed.
